@@ -70,7 +70,9 @@ func tokens(cell string) ([]any, bool) {
 // boundary-heavy amount generator
 func genAmount(rng *rand.Rand) string {
 	var s string
-	switch rng.Intn(8) {
+	switch rng.Intn(9) {
+	case 7: // many decimals right at a rounding boundary (also after the division by 1000 of --thousands)
+		s = []string{"499.", "4.", "0.", "1499.", "999499."}[rng.Intn(5)] + strings.Repeat("9", 13+rng.Intn(6)) + []string{"5", "49", "95", ""}[rng.Intn(4)]
 	case 0: // x.5 boundaries
 		s = fmt.Sprintf("%d.%s5", rng.Intn(2000), strings.Repeat("0", rng.Intn(3)))
 	case 1: // 999.5 style carries
